@@ -18,6 +18,7 @@ import concurrent.futures as cf
 import itertools
 import os
 import random
+import time
 
 import boot  # noqa
 import common
@@ -51,6 +52,25 @@ Definition grid_ok (g : mol) (sssr : list (list Z)) (code : Z) : bool :=
   | Err _ => false
   | Ok p => code =? (if zmem 1 (r_pyrroles p) then 2 else 0) + (if zmem 1 (r_double p) then 1 else 0)
   end.
+Definition grid_code (g : mol) (sssr : list (list Z)) : Z :=
+  match prepare_rings g sssr with
+  | Err OtherError => 4
+  | Err _ => 5
+  | Ok p => (if zmem 1 (r_pyrroles p) then 2 else 0) + (if zmem 1 (r_double p) then 1 else 0)
+  end.
+Definition rh8 : list (bool * option Z) :=
+  [(false, None); (false, Some 0); (false, Some 1); (false, Some 2); (true, None); (true, Some 0); (true, Some 1); (true, Some 2)].
+(* one row of the grid: the eight (radical, hydrogens) states of one (skeleton, element, charge) *)
+Definition grid_row (sk : atom -> mol) (sssr : list (list Z)) (num chg : Z) (codes : list Z) : bool :=
+  list_eqb Z.eqb (map (fun rh => grid_code (sk (mkAtom num None chg (fst rh) (snd rh) None)) sssr) rh8) codes.
+Definition cls_code (num chg : Z) (rad : bool) (nb : Z) (h : option Z) (indb : bool) : Z :=
+  match classify_atom num chg rad nb h indb with
+  | Err OtherError => 4
+  | Err _ => 5
+  | Ok (p, d) => (if p then 2 else 0) + (if d then 1 else 0)
+  end.
+Definition cls_row (num chg nb : Z) (indb : bool) (codes : list Z) : bool :=
+  list_eqb Z.eqb (map (fun rh => cls_code num chg (fst rh) nb (snd rh) indb) rh8) codes.
 (* the per-atom function alone, for the states that reach the atom loop *)
 Definition cls_ok (num chg : Z) (rad : bool) (nb : Z) (h : option Z) (indb : bool) (code : Z) : bool :=
   match classify_atom num chg rad nb h indb with
@@ -125,7 +145,7 @@ class Cases:
     def total(self):
         return sum(len(c) for _, c in self.groups)
 
-    def run(self, limit=200_000, max_cases=1500):
+    def run(self, limit=200_000, max_cases=400):
         shards = []
         cur_defs, cur_cases, size = [], [], 0
         dmap = {}
@@ -370,29 +390,33 @@ def corr_grid(ck, cs):
                 defs.append(f'Definition {name} (a1 : atom) : mol := {mol_t(m, hole=1)}.\nDefinition {name}r : list (list Z) := {sssr_t(m)}.')
     cases = []
     n_acc = 0
+    RH = [(rad, h) for rad in (False, True) for h in (None, 0, 1, 2)]       # order of PRELUDE.rh8
     for sym in GRID_ELEMENTS:
         num = Element.from_symbol(sym)().atomic_number
         for charge in (-2, -1, 0, 1, 2):
-            for rad in (False, True):
-                for h in (None, 0, 1, 2):
-                    for (extra, exo, fused), (name, text, rtext) in sk.items():
-                        m = grid_skeleton(extra, exo, fused, sym, charge, rad, h)
-                        code = class_code(m._Kekule__prepare_rings)
-                        meta = ('grid', sym, charge, rad, h, extra, exo, fused, code)
-                        a1 = f'(mkAtom {num} None {zraw(charge)} {b(rad)} {opt(h, zraw)} None)'
-                        if mol_t(m, hole=1) == text and sssr_t(m) == rtext:
-                            cases.append((f'grid_ok ({name} {a1}) {name}r {code}', meta, 'prep'))
-                        else:   # the substituents' hydrogens depend on the probe atom: print in full
-                            cases.append((f'grid_ok {mol_t(m)} {sssr_t(m)} {code}', meta, 'prep'))
-                            ck.count('grid:printed-in-full')
-                        # the per-atom function alone, when the function got as far as the atom loop (or passed it)
-                        nb = 2 + extra + int(fused) + int(exo)
-                        reached = not (exo and (fused or not quinone_allowed(num, charge)))
-                        if reached:
-                            cases.append((f'cls_ok {num} {zraw(charge)} {b(rad)} {nb} {opt(h, zraw)} {b(exo)} {code}', meta, 'prep'))
-                        ck.case(meta[:8], nontrivial=code != 4)
-                        ck.count(f'grid:class={("neither", "double_bonded", "pyrroles", "both", "InvalidAromaticRing")[code]}')
-                        n_acc += code != 4
+            for (extra, exo, fused), (name, text, rtext) in sk.items():
+                codes = []
+                whole = True
+                for rad, h in RH:
+                    m = grid_skeleton(extra, exo, fused, sym, charge, rad, h)
+                    code = class_code(m._Kekule__prepare_rings)
+                    codes.append(code)
+                    if not (mol_t(m, hole=1) == text and sssr_t(m) == rtext):
+                        # the substituents' hydrogens depend on the probe atom: print this state in full
+                        whole = False
+                        cases.append((f'grid_ok {mol_t(m)} {sssr_t(m)} {code}', ('grid', sym, charge, extra, exo, fused, [(rad, h)]), 'prep'))
+                        ck.count('grid:printed-in-full')
+                    ck.case(('grid', sym, charge, rad, h, extra, exo, fused), nontrivial=code != 4)
+                    ck.count(f'grid:class={("neither", "double_bonded", "pyrroles", "both", "InvalidAromaticRing")[code]}')
+                    n_acc += code != 4
+                meta = ('grid', sym, charge, extra, exo, fused, RH)
+                if whole:
+                    cases.append((f'grid_row {name} {name}r {num} {zraw(charge)} {lst(codes, zraw)}', meta, 'prep'))
+                # the per-atom function alone, when the function got as far as the atom loop (or passed it)
+                nb = 2 + extra + int(fused) + int(exo)
+                reached = not (exo and (fused or not quinone_allowed(num, charge)))
+                if reached:
+                    cases.append((f'cls_row {num} {zraw(charge)} {nb} {b(exo)} {lst(codes, zraw)}', meta, 'prep'))
     cs.add(defs, cases)
     ck.extra['grid_states'] = len(GRID_ELEMENTS) * 5 * 2 * 4 * 12
     ck.extra['grid_states_accepted'] = n_acc
@@ -582,7 +606,7 @@ class Pipe:
         if r2 or snap(k2) != snap(k):
             self.bad(True, f'kekule-twice:{smi}', 'second kekule() changes the molecule / reports a conversion', label, [r2, str(k2)], [False, str(k)],
                      'snapshot equality', code_of('m.kekule(); print(m); print(m.kekule(), m)'))
-        if rdinfo is not None and aromatic_input and not renumbered:
+        if rdinfo is not None and aromatic_input and not renumbered and not misdrawn and not fixed and not ve and not hchg:
             self.rdkit_compare(label, before, k, rdinfo, code, fixed)
 
         # driver model given the real search result
@@ -627,6 +651,16 @@ class Pipe:
                      code_of('m.kekule(); m.thiele(); print(m); m.thiele(); print(m)'))
         sa = str(a)
         clean = dom and not ve and not hchg
+        # rings kekule() accepts as aromatic but thiele() does not aromatise again (P(V), Se, 7-rings ...): there the
+        # comparisons of aromatic forms are about Kekule structures; disagreements are reported under one key per culprit
+        refused = [n for n in m0._atoms if any(int(bd) == 4 for bd in before._bonds[n].values()) and not any(int(bd) == 4 for bd in a._bonds[n].values())]
+        four = unsaturated_4ring(a) or unsaturated_4ring(k)
+        why_not = None
+        if refused:
+            cands = [n for n in refused if a._atoms[n].atomic_number != 6] or refused
+            c_ = max(cands, key=lambda n: (before._atoms[n].neighbors, before._atoms[n].atomic_number))
+            why_not = f'not-rearomatised:{atom_state(before._atoms[c_])}'
+        self.why_not = why_not
         # fixpoint of thiele . kekule
         x = a.copy()
         kx = None
@@ -635,15 +669,15 @@ class Pipe:
             kx = x.copy()
             x.thiele()
             if snap(x) != snap(a):
-                self.bad(clean, f'thiele-kekule-fixpoint:{smi}', 'thiele(kekule(A)) differs from the aromatic form A = thiele(kekule(m))', label, str(x), sa,
-                         'snapshot equality', code_of('m.kekule(); m.thiele(); print(m); m.kekule(); m.thiele(); print(m)'))
+                self.cmp_bad(clean, why_not, four, f'thiele-kekule-fixpoint:{smi}', 'thiele(kekule(A)) differs from the aromatic form A = thiele(kekule(m))', label, str(x), sa,
+                             'snapshot equality', code_of('m.kekule(); m.thiele(); print(m); m.kekule(); m.thiele(); print(m)'))
             # fixpoint of kekule . thiele on the Kekule side
             y = kx.copy()
             y.thiele()
             y.kekule()
             if snap(y) != snap(kx):
-                self.bad(clean, f'kekule-thiele-fixpoint:{smi}', 'kekule(thiele(K)) differs from K = kekule(thiele(kekule(m)))', label, str(y), str(kx),
-                         'snapshot equality', code_of('m.kekule(); m.thiele(); m.kekule(); print(m); m.thiele(); m.kekule(); print(m)'))
+                self.cmp_bad(clean, why_not, four, f'kekule-thiele-fixpoint:{smi}', 'kekule(thiele(K)) differs from K = kekule(thiele(kekule(m)))', label, str(y), str(kx),
+                             'snapshot equality', code_of('m.kekule(); m.thiele(); m.kekule(); print(m); m.thiele(); m.kekule(); print(m)'))
         except InvalidAromaticRing as e:
             self.bad(clean, f'rekekule-raises:{smi}', 'kekule() raises on the aromatic form produced by thiele()', label, repr(e), 'a Kekule form',
                      'exception', code_of('m.kekule(); m.thiele(); print(m); m.kekule()'))
@@ -655,18 +689,38 @@ class Pipe:
             if clean and (hx or vx):
                 self.bad(True, f'rekekule-changes-H:{smi}', 'kekule() of the aromatic form produced by thiele() changes hydrogen counts / leaves a valence error', label,
                          {'H changed': hx, 'valence errors': vx}, 'none', 'hydrogen counts before / after', code_of('m.kekule(); m.thiele(); print(m); m.kekule(); print(m)'))
-            cases.append((f'kekule_rel_x {b(bool(hx))} {b(bool(vx) or bool(ve))} a{i} j{i}', ('kekule_rel', 'kekule() of thiele() output', label, list(m0._atoms)),
+            cases.append((f'kekule_rel_x {b(bool(hx))} {b(bool(vx) or bool(ve))} {self.repaired(a, f"a{i}", f"r{i}")} j{i}',
+                          ('kekule_rel', 'kekule() of thiele() output', label, list(m0._atoms)),
                           ('kekule', label, code_of('m.kekule(); m.thiele(); print(m); m.kekule(); print(m)'))))
 
         # ---- enumerate_kekule(): every form through the checker; all aromatise to one string
-        if (full or renumbered) and has_arom(a):
-            self.forms(i, 'A', a, f'a{i}', a, sa, label, clean, full, defs, cases, tag, code_of, 'm.kekule(); m.thiele(); ', k)
+        if full or renumbered:
+            if has_arom(a):
+                self.forms(i, 'A', a, self.repaired(a, f'a{i}', f'r{i}'), a, sa, label, clean, full, defs, cases, tag, code_of, 'm.kekule(); m.thiele(); ', k, why_not)
             if aromatic_input and full:
-                self.forms(i, 'M', m0, src, before, sa, label, clean, full, defs, cases, tag, code_of, '', k)
+                self.forms(i, 'M', m0, src, before, sa, label, clean, full, defs, cases, tag, code_of, '', k, why_not)
         cs.add(defs, cases)
-        return sa, k, clean
+        return a, k, clean, why_not, four
 
-    def forms(self, i, which, src_m, src_name, rel_src, sa, label, clean, full, defs, cases, tag, code_of, prep_code, k):
+    def repaired(self, m, name, rname):
+        """the Coq term of the molecule the relation starts from: rings __prepare_rings completes (single / double bonds
+        inside an aromatic skeleton, e.g. the four-membered ring of biphenylene) are written aromatic first"""
+        from chython.exceptions import InvalidAromaticRing
+        try:
+            rings, _, _ = m.copy()._Kekule__prepare_rings()
+        except InvalidAromaticRing:
+            return name
+        return f'(repair {name} {rname})' if any(int(m._bonds[n][q]) != 4 for n, ms in rings.items() for q in ms) else name
+
+    def cmp_bad(self, clean, why_not, four, key, what, label, observed, expected, oracle, code, extra=None):
+        """a disagreement between aromatic forms: under the key of the recorded gap it follows from, if any"""
+        if four:
+            key, what = 'aromatic-form-not-unique:unsaturated-4-ring-system', what + ' (ring system with an unsaturated four-membered ring, biphenylene type)'
+        elif why_not:
+            key, what = why_not, what + ' (kekule() accepts the ring as aromatic, thiele() does not aromatise it again: ' + why_not.split(':', 1)[1] + ')'
+        self.bad(clean, key, what, label, observed, expected, oracle, code, extra)
+
+    def forms(self, i, which, src_m, src_name, rel_src, sa, label, clean, full, defs, cases, tag, code_of, prep_code, k, why_not):
         """which = 'A': forms of the aromatic form thiele(kekule(m)) (every hydrogen count known);
            which = 'M': forms of the input as given (ring hetero atoms may have unknown hydrogen counts)"""
         from chython.exceptions import InvalidAromaticRing
@@ -701,8 +755,10 @@ class Pipe:
                                  f'count (bare aromatic {at.atomic_symbol.lower()}) also yields forms with another hydrogen count on it than kekule() sets '
                                  '(another molecule, another formula)', label, {'form': str(f), 'H': hf}, {'kekule()': str(k), 'H': hk},
                                  'hydrogen counts of each enumerated form against those of kekule()', fcode, {'atom': n})
-                    elif h1 != h2:
-                        self.bad(clean, f'enumerate-kekule-changes-given-H:{atom_state(at)}:{h1}->{h2}', 'an enumerated Kekule form changes a given hydrogen count', label,
+                    elif at.implicit_hydrogens is not None and at.implicit_hydrogens != h2 and h2 is not None:
+                        self.bad(clean, f'kekule-changes-given-H:{at.atomic_symbol}{at.charge:+d}:neighbors={at.neighbors}:{at.implicit_hydrogens}->{h2}',
+                                 f'kekule() / enumerate_kekule() changes a given hydrogen count: ring {at.atomic_symbol} charge {at.charge:+d} with {at.neighbors} neighbours '
+                                 f'{at.implicit_hydrogens} -> {h2} H', label,
                                  {'form': str(f), 'H': hf}, {'kekule()': str(k), 'H': hk}, 'hydrogen counts of each enumerated form', fcode, {'atom': n})
             if n_cases < (4 if full else 1):
                 n_cases += 1
@@ -719,11 +775,11 @@ class Pipe:
         ck.case(('forms', which, tag, label), nontrivial=len(seen) > 1)
         if excluded:
             self.excluded_4ring += 1
-            if strs != {sa}:
+            if not all(same_structure(x, sa) for x in strs):
                 self.excluded_4ring_inconsistent += 1
-        elif strs and strs != {sa}:
-            self.bad(clean, f'forms-aromatise-differently:{label}', 'the enumerated Kekule forms do not all aromatise to the aromatic form of the molecule', label,
-                     sorted(strs), sa, 'canonical strings of thiele() of every enumerate_kekule() form', fcode)
+        elif strs and not all(same_structure(x, sa) for x in strs):
+            self.cmp_bad(clean, why_not, False, f'forms-aromatise-differently:{label}', 'the enumerated Kekule forms do not all aromatise to the aromatic form of the molecule',
+                         label, sorted(strs), sa, 'canonical strings of thiele() of every enumerate_kekule() form', fcode)
 
     def h_changes(self, which, g0, g1, label, code, dom):
         """hydrogen counts that were given and changed are reported one by one (stable key per atom state); the rest of the
@@ -735,7 +791,7 @@ class Pipe:
                 if a1.implicit_hydrogens is None:
                     continue        # that is the valence error, reported under its own key
                 key = f'kekule-changes-given-H:{a0.atomic_symbol}{a0.charge:+d}:neighbors={a0.neighbors}:{a0.implicit_hydrogens}->{a1.implicit_hydrogens}'
-                what = (f'kekule() changes a given hydrogen count: ring {a0.atomic_symbol} charge {a0.charge:+d} with {a0.neighbors} neighbours '
+                what = (f'kekule() / enumerate_kekule() changes a given hydrogen count: ring {a0.atomic_symbol} charge {a0.charge:+d} with {a0.neighbors} neighbours '
                         f'{a0.implicit_hydrogens} -> {a1.implicit_hydrogens} H')
             else:
                 key = f'thiele-moves-H:{a0.atomic_symbol}{a0.charge:+d}:{a0.implicit_hydrogens}->{a1.implicit_hydrogens}'
@@ -772,6 +828,41 @@ class Pipe:
         if not diff and dbl_rd != dbl_ch and not fixed:
             ck.counterexample(f'rdkit-kekule-doubles:{label}', 'Kekule form has another number of double bonds than RDKit\'s', {'input': label}, dbl_ch, dbl_rd,
                               'RDKit Kekulize of the same SMILES', replay_py='from chython import smiles\n' + code)
+
+
+def renumber(mol, rng):
+    """random renumbering (new object) and the mapping old -> new"""
+    nums = list(mol._atoms)
+    perm = nums[:]
+    rng.shuffle(perm)
+    new = mol.copy()
+    pi = dict(zip(nums, perm))
+    new.remap(pi)
+    return new, pi
+
+
+_CANON = {}
+
+
+def kekule_level_canon(s):
+    """RDKit canonical string of a SMILES WITHOUT aromaticity perception (atoms, charges, hydrogens, bond orders as
+    written): identity of two structures where chython's canonical strings differ (C01 records tie-breaking gaps)"""
+    if s not in _CANON:
+        from rdkit import Chem
+        try:
+            rd = Chem.MolFromSmiles(s, sanitize=False)
+            Chem.SanitizeMol(rd, Chem.SANITIZE_ALL ^ Chem.SANITIZE_SETAROMATICITY ^ Chem.SANITIZE_KEKULIZE ^ Chem.SANITIZE_PROPERTIES)
+            _CANON[s] = Chem.MolToSmiles(rd)
+        except Exception:
+            _CANON[s] = None
+    return _CANON[s]
+
+
+def same_structure(s1, s2):
+    if s1 == s2:
+        return True
+    c1, c2 = kekule_level_canon(s1), kekule_level_canon(s2)
+    return c1 is not None and c1 == c2
 
 
 def smiles_of(label):
@@ -836,22 +927,24 @@ def directed_search(ck, failed, budget=24):
     must not depend on the numbering; returns the number of concrete failures reported"""
     rng = random.Random(f'{ck.seed}:c05:directed')
     found = 0
+    todo = []
     for c in failed[:budget]:
         meta = c[1]
-        label = None if meta[0] == 'grid' else meta[2] if meta[0] in ('kekule_rel', 'thiele_rel') else meta[1]
+        if meta[0] == 'grid':
+            for rad, h in meta[6]:
+                todo.append((repr(meta[:6] + (rad, h)), lambda meta=meta, rad=rad, h=h: grid_skeleton(meta[3], meta[4], meta[5], meta[1], meta[2], rad, h)))
+        else:
+            label = meta[2] if meta[0] in ('kekule_rel', 'thiele_rel') else meta[1]
+            if not label.startswith('arenes.sdf'):
+                todo.append((label, lambda label=label: smiles_of(label)))
+    for label, mk in dict(todo).items():
         try:
-            if meta[0] == 'grid':
-                m = grid_skeleton(meta[5], meta[6], meta[7], meta[1], meta[2], meta[3], meta[4])
-                label = repr(meta)
-            elif label and not label.startswith('arenes.sdf'):
-                m = smiles_of(label)
-            else:
-                continue
+            m = mk()
         except Exception:
             continue
         outcomes = []
         for r in range(6):
-            mr = corpus.renumber(m, rng) if r else m
+            mr = renumber(m, rng)[0] if r else m
             res = domain_free_oracles(mr, label)
             outcomes.append(res == ['raises'])
             for msg in res:
@@ -881,25 +974,37 @@ def run(ck):
                         'all c/n six-rings, pyrrole-type X + c/n five-rings, fused templates with random aza substitution, test/arenes.sdf, '
                         'test/heterocycles_charges.smi, a lipophilicity.csv sample; each also under one random renumbering. non-trivial = the molecule has '
                         'aromatic bonds and the conversion produced a form (not InvalidAromaticRing); grid: the state is accepted')
+    t00 = time.time()
     proved = common.standard_proof_steps(ck, translators=[])
+    t_proof = time.time()
     rules_need_aromatic_atom(ck)
     cs = Cases('c05')
     corr_grid(ck, cs)
+    t_grid = time.time()
     pipe = Pipe(ck, cs)
     rng = random.Random(f'{ck.seed}:c05:renumber')
     mols = load_inputs(ck)
     for kind, label, m0 in mols:
         res = pipe.run(kind, label, m0)
-        mr = corpus.renumber(m0, rng)
+        mr, pi = renumber(m0, rng)
         res_r = pipe.run(kind, label, mr, renumbered=True, full=False)
         dom = domain(str(m0) if kind == 'arenes.sdf' else label)[0]
         if (res is None) != (res_r is None):
             pipe.bad(True, f'renumbering-acceptance:{label}', 'kekule() succeeds under one numbering and raises under another', label,
                      'raises' if res_r is None else 'succeeds', 'same outcome', 'random renumbering', None, {'numbering': list(mr._atoms)})
-        elif res is not None and res[0] != res_r[0]:
-            pipe.bad(dom and res[2] and res_r[2], f'renumbering-result:{label}', 'aromatic form after kekule()+thiele() depends on the atom numbering', label,
-                     res_r[0], res[0], 'canonical string under random renumbering', None, {'numbering': list(mr._atoms)})
+        elif res is not None:
+            # the conversion commutes with the renumbering: bond for bond, atom for atom (no canonical string involved)
+            a0, ar = res[0], res_r[0]
+            diff = [(n, q) for n, nb in a0._bonds.items() for q, bd in nb.items() if n < q and int(bd) != int(ar._bonds[pi[n]][pi[q]])]
+            diff_h = [n for n, at in a0._atoms.items() if at.implicit_hydrogens != ar._atoms[pi[n]].implicit_hydrogens]
+            ck.case(('renumbering', label), nontrivial=has_arom(a0))
+            if (diff or diff_h) and not same_structure(str(a0), str(ar)):
+                pipe.cmp_bad(dom and res[2] and res_r[2], res[3] or res_r[3], res[4] or res_r[4], f'renumbering-result:{label}',
+                             'the aromatic form after kekule()+thiele() depends on the atom numbering', label, {'bonds that differ': diff[:10], 'H that differ': diff_h[:10], 'form': str(ar)},
+                             str(a0), 'bond orders and hydrogen counts compared through the renumbering', None, {'numbering': list(mr._atoms)})
+    t_py = time.time()
     ok, failed, log, nshards = cs.run()
+    ck.extra['seconds'] = {'proof steps': round(t_proof - t00, 1), 'grid': round(t_grid - t_proof, 1), 'real code + oracles': round(t_py - t_grid, 1), 'coq cases': round(time.time() - t_py, 1)}
     prep_failed = [c for c in failed if c[2] == 'prep']
     rel_failed = [c for c in failed if c[2] != 'prep']
     ck.oblige('correspondence: Kekule.__prepare_rings == Model.Kekule.prepare_rings (atom-state grid + whole molecules) and kekule() == kekule_driver given the search result',
